@@ -1,13 +1,15 @@
 import MuduoVerif.Generated.Calendar
+import MuduoVerif.Generated.TsText
 /-!
 Model of the calendar part of C20 (muduo/base/Date.{h,cc}, the UTC half of
 TimeZone.cc, Timestamp.cc's text forms).
 
 All arithmetic is **the generated code** (`Generated/Calendar.lean`, translated statement
 by statement from /repo's current AST): `getJulianDayNumber`, `getYearMonthDay`,
-`Date_weekDay`, `fillHMS`, `BreakTime`, `fromUtcTime`.  Hand-written here: the `printf`
-conversions used by `Date::toIsoString`, `DateTime::toIsoString`, `Timestamp::toString`
-and `Timestamp::toFormattedString` (tied to the code by the differential run only).
+`Date_weekDay`, `fillHMS`, `BreakTime`, `fromUtcTime`.  The text forms of `Timestamp` (`toString`, `toFormattedString`) render the
+`snprintf` formats, buffers and arguments extracted from Timestamp.cc (`Generated/TsText.lean`).
+Hand-written here: what `%[0][width]d` prints (`fmtInt`) and the formats of `Date::toIsoString` /
+`DateTime::toIsoString` (tied to the code by the differential run only).
 -/
 namespace MuduoVerif.Calendar
 open MuduoVerif.Gen.Calendar
@@ -36,18 +38,76 @@ def dtIso (dt : DateTime) : String :=
   String.ofList (fmtInt 4 true dt.year ++ ['-'] ++ fmtInt 2 true dt.month ++ ['-'] ++ fmtInt 2 true dt.day ++ [' ']
     ++ fmtInt 2 true dt.hour ++ [':'] ++ fmtInt 2 true dt.minute ++ [':'] ++ fmtInt 2 true dt.second)
 
-/-- `Timestamp::toString`: `"%ld.%06ld"` of the C quotient and remainder by 10^6 -/
-def tsToString (us : Int) : String :=
-  String.ofList (fmtInt 0 false (Int.tdiv us kMicroSecondsPerSecond) ++ ['.']
-    ++ fmtInt 6 true (Int.tmod us kMicroSecondsPerSecond))
+/-! ### `snprintf` with the formats of Timestamp.cc (`Generated/TsText.lean`) -/
 
-/-- `Timestamp::toFormattedString(showMicroseconds)`; the code calls `gmtime_r`, the model
-uses the translated `BreakTime` (their agreement is part of what the run compares) -/
-def tsFormatted (us : Int) (showMicro : Bool) : String :=
-  let dt := BreakTime (Int.tdiv us kMicroSecondsPerSecond)
-  let base := fmtInt 4 false dt.year ++ fmtInt 2 true dt.month ++ fmtInt 2 true dt.day ++ [' ']
-    ++ fmtInt 2 true dt.hour ++ [':'] ++ fmtInt 2 true dt.minute ++ [':'] ++ fmtInt 2 true dt.second
-  String.ofList (if showMicro then base ++ ['.'] ++ fmtInt 6 true (Int.tmod us kMicroSecondsPerSecond) else base)
+/-- state: `none` outside a conversion, `some (zeroFlag, width, sawWidthDigit)` inside `%..`; conversions are
+`%[0][width]d` and `%[0][width]ld`, everything else is copied -/
+def renderGo : Option (Bool × Nat × Bool) → List Char → List Int → List Char
+  | _, [], _ => []
+  | none, c :: rest, args =>
+    if c = '%' then renderGo (some (false, 0, false)) rest args else c :: renderGo none rest args
+  | some (z, w, started), c :: rest, args =>
+    if c = 'd' then
+      match args with
+      | a :: as => fmtInt w z a ++ renderGo none rest as
+      | [] => renderGo none rest []
+    else if c = 'l' then renderGo (some (z, w, started)) rest args
+    else if c = '0' ∧ started = false then renderGo (some (true, w, false)) rest args
+    else if c.isDigit then renderGo (some (z, w * 10 + (c.toNat - 48), true)) rest args
+    else c :: renderGo none rest args
+
+/-- `snprintf(buf, size, fmt, args..)`: the text, cut to what fits the buffer with its terminating NUL -/
+def snprintf (size : Nat) (fmt : List Char) (args : List Int) : List Char := (renderGo none fmt args).take (size - 1)
+
+open MuduoVerif.Gen.TsText in
+/-- `Timestamp::toString`: the format, the buffer and the two arguments of the source -/
+def tsToStringChars (us : Int) : List Char :=
+  snprintf toStringBuf toStringFormat [toStringSeconds us, toStringMicros us]
+
+def tsToString (us : Int) : String := String.ofList (tsToStringChars us)
+
+open MuduoVerif.Gen.TsText in
+/-- `Timestamp::toFormattedString(showMicroseconds)`; the code calls `gmtime_r`, the model uses the translated
+`BreakTime` (their agreement is part of what the run compares): `tm_year + 1900`, `tm_mon + 1`, `tm_mday`, `tm_hour`,
+`tm_min`, `tm_sec` are the fields of `BreakTime seconds` -/
+def tsFormattedChars (us : Int) (showMicro : Bool) : List Char :=
+  let dt := BreakTime (formattedSeconds us)
+  let args := [dt.year, dt.month, dt.day, dt.hour, dt.minute, dt.second]
+  if formattedShowsMicros showMicro then snprintf formattedBufMicro formattedFormatMicro (args ++ [formattedMicros us])
+  else snprintf formattedBuf formattedFormat args
+
+def tsFormatted (us : Int) (showMicro : Bool) : String := String.ofList (tsFormattedChars us showMicro)
+
+/-! ### reading the text forms back (specification side of `C20.timestamp_text_roundtrip`) -/
+
+/-- value of a string of ASCII digits -/
+def digitsVal (cs : List Char) : Nat := Nat.ofDigitChars 10 cs 0
+
+/-- `"<seconds>.<6 digits>"` → microseconds -/
+def parseToString (cs : List Char) : Option Int :=
+  let a := cs.takeWhile Char.isDigit
+  match cs.dropWhile Char.isDigit with
+  | '.' :: b => if a ≠ [] ∧ b.length = 6 ∧ b.all Char.isDigit then some ((digitsVal a : Int) * 1000000 + digitsVal b) else none
+  | _ => none
+
+/-- `"[blanks]Y..YMMDD HH:MM:SS[.uuuuuu]"` → microseconds since the epoch (through the translated `fromUtcTime`) -/
+def parseFormatted (cs : List Char) : Option Int :=
+  let cs := cs.dropWhile (· = ' ')
+  let ymd := cs.takeWhile Char.isDigit
+  match cs.dropWhile Char.isDigit with
+  | ' ' :: h1 :: h2 :: ':' :: m1 :: m2 :: ':' :: s1 :: s2 :: tail =>
+    if ymd.length < 5 then none
+    else
+      let dt : DateTime :=
+        { year := digitsVal (ymd.take (ymd.length - 4)), month := digitsVal ((ymd.drop (ymd.length - 4)).take 2),
+          day := digitsVal (ymd.drop (ymd.length - 2)), hour := digitsVal [h1, h2], minute := digitsVal [m1, m2],
+          second := digitsVal [s1, s2] }
+      let sec := fromUtcTime dt
+      match tail with
+      | [] => some (sec * 1000000)
+      | '.' :: u => if u.length = 6 then some (sec * 1000000 + digitsVal u) else none
+      | _ => none
+  | _ => none
 
 /-- the documented argument ranges of `DateTime` (TimeZone.h) -/
 def DateTime.fieldsOk (dt : DateTime) : Prop :=
